@@ -9,8 +9,15 @@ NumPy / brute force, optimized and with `array.optimize-graph=False`.
 A *case* is a JSON-able dict: {"fam", "shape", "chunks", "acc", "index", ["pre"]}; index items:
   ["i",v] int   ["s",a,b,c] slice   ["n"] None   ["e"] Ellipsis   ["l",[..]] python list
   ["a",[..],dtype] numpy int array (any nesting)   ["bl",[..]] python bool list
-  ["ba",nested] numpy bool array   ["dai",v,chunks] dask int array (0-d when v is an int)
+  ["ba",nested] numpy bool array   ["dai",v,chunks[,{"dtype","form"}]] dask int array (0-d when v is an int;
+  form: from_array | add0 | rechunk | sliced = how the indexer collection is produced)
   ["dab",nested,chunks] dask bool array   ["f",v] float   ["b",v] python bool   ["np0",v] 0-d numpy int
+Element types (every integer position of an index): ["i",v,tag], ["s",a,b,c,[ta,tb,tc]], ["l",[..],tag] (python list of
+scalars of that type), ["np0",v,dtype]; tag = "int" (python int, default) | "bool" (python bool, values 0/1) | a NumPy integer
+dtype name (np.int8(v) … np.uint64(v), np.intp(v)).  Rule masks for LARGE axes (kept out of the replay file):
+["bam",n,k,r] numpy bool mask arange(n)%k==r, ["dabm",n,k,r,chunks] the same as a dask array.
+"pre" (an array with unknown chunk sizes: the result of a boolean dask mask) takes the mask as a list ("mask") or as a rule
+("rule": [n,k,r]).
 Optional keys: "post" = follow-on ops applied to the indexed array (["getitem", index-spec],
 ["sum", axis], ["add", k], ["T"]), "hist" = {"chunks_first", "recompute"} (evaluate `.chunks` first;
 compute the ORIGINAL indexed collection again after the derived one), "config" = dask config.
@@ -26,6 +33,7 @@ import numpy as np
 
 from harness import gen
 from harness.core import err_name, f_list, f_ll, f_slice
+from harness.props_ext import c12_sizes
 
 REFUSALS = (IndexError, ValueError, TypeError, NotImplementedError)
 
@@ -76,20 +84,63 @@ def spec_of(it):
     return ["i", int(it)]
 
 
+INT_TAGS = ("int8", "uint8", "int16", "uint16", "int32", "uint32", "int64", "uint64", "intp")
+
+
+def typed(v, tag):
+    """the integer v as an object of the element type `tag` (see the module docstring)."""
+    if v is None:
+        return None
+    if tag in (None, "int"):
+        return v if isinstance(v, float) else int(v)
+    if tag == "bool":
+        return bool(v)
+    return np.dtype(tag).type(v)
+
+
+def fit_tags(v):
+    """the NumPy integer types that can hold every value of v (an int or a list of ints)"""
+    vs = [int(q) for q in (v if isinstance(v, (list, tuple)) else [v]) if q is not None]
+    lo, hi = (min(vs), max(vs)) if vs else (0, 0)
+    return [t for t in INT_TAGS if np.iinfo(t).min <= lo and hi <= np.iinfo(t).max]
+
+
+def rand_tag(rng, v, p_plain=0.0):
+    """a random element type for the value(s) v: python int with probability p_plain, else one of the NumPy integer
+    types that hold it, narrow types preferred (their limits are the nearest)"""
+    if rng.random() < p_plain:
+        return "int"
+    tags = fit_tags(v)
+    w = [4 if t in ("int8", "uint8") else 3 if t in ("int16", "uint16") else 1 for t in tags]
+    return rng.choices(tags, w)[0]
+
+
+def rule_mask(n, k, r):
+    return (np.arange(int(n)) % int(k)) == int(r)
+
+
 def build_item(sp, for_dask):
     import dask_array as da
 
     k = sp[0]
     if k == "i":
-        return int(sp[1])
+        return typed(sp[1], sp[2] if len(sp) > 2 else None)
     if k == "s":
-        return slice(sp[1], sp[2], sp[3])
+        tg = sp[4] if len(sp) > 4 and sp[4] else (None, None, None)
+        return slice(typed(sp[1], tg[0]), typed(sp[2], tg[1]), typed(sp[3], tg[2]))
     if k == "n":
         return None
     if k == "e":
         return Ellipsis
     if k == "l":
+        if len(sp) > 2 and sp[2]:
+            return [typed(q, sp[2]) for q in sp[1]]
         return list(sp[1])
+    if k == "bam":
+        return rule_mask(*sp[1:4])
+    if k == "dabm":
+        v = rule_mask(*sp[1:4])
+        return da.from_array(v, chunks=(tuple(sp[4]),)) if for_dask else v
     if k == "a":
         return np.array(sp[1], dtype=np.dtype(sp[2])) if np.size(sp[1]) else np.zeros(np.shape(sp[1]), dtype=np.dtype(sp[2]))
     if k == "bl":
@@ -97,10 +148,20 @@ def build_item(sp, for_dask):
     if k == "ba":
         return np.array(sp[1], dtype=bool).reshape(sp[2]) if len(sp) > 2 else np.array(sp[1], dtype=bool)
     if k == "dai":
-        v = np.array(sp[1], dtype=np.int64)
+        opts = sp[3] if len(sp) > 3 and sp[3] else {}
+        v = np.array(sp[1], dtype=np.dtype(opts.get("dtype", "int64")))
         if not for_dask:
             return v if v.ndim else int(v)
-        return da.from_array(v, chunks=tuple(tuple(c) for c in sp[2]) if v.ndim else ())
+        chunks = tuple(tuple(c) for c in sp[2]) if v.ndim else ()
+        form = opts.get("form", "from_array")
+        if form == "add0":      # the indexer is the result of an elementwise op
+            return da.from_array(v, chunks=chunks) + np.array(0, dtype=v.dtype)
+        if form == "rechunk":   # ... of a rechunk
+            return da.from_array(v, chunks=v.shape).rechunk(chunks)
+        if form == "sliced":    # ... of a slice of a longer array
+            pad = np.concatenate([np.zeros(2, dtype=v.dtype), v.ravel()]) if v.ndim else v
+            return da.from_array(pad, chunks=((2,) + chunks[0],))[2:] if v.ndim else da.from_array(np.array([0, int(v)], dtype=v.dtype), chunks=1)[1]
+        return da.from_array(v, chunks=chunks)
     if k == "dab":
         v = np.array(sp[1], dtype=bool)
         if len(sp) > 3:
@@ -113,7 +174,7 @@ def build_item(sp, for_dask):
     if k == "b":
         return bool(sp[1])
     if k == "np0":
-        return np.array(int(sp[1]))
+        return np.array(int(sp[1]), dtype=np.dtype(sp[2])) if len(sp) > 2 else np.array(int(sp[1]))
     raise ValueError(sp)
 
 
@@ -122,7 +183,7 @@ def build_index(spec, for_dask):
 
 
 def is_arrayish(sp):
-    return sp[0] in ("l", "a", "bl", "ba", "dai", "dab") and not (sp[0] == "dai" and np.ndim(sp[1]) == 0)
+    return sp[0] in ("l", "a", "bl", "ba", "dai", "dab", "bam", "dabm") and not (sp[0] == "dai" and np.ndim(sp[1]) == 0)
 
 
 def np_transposes(spec):
@@ -210,7 +271,7 @@ def make_arrays(case):
             d = d[da.from_array(mk, chunks=d.chunks)]
             x = x[mk]
         elif pre["kind"] == "mask-axis":
-            mk = np.array(pre["mask"], dtype=bool)
+            mk = rule_mask(*pre["rule"]) if "rule" in pre else np.array(pre["mask"], dtype=bool)
             ax = pre["axis"]
             sl = (slice(None),) * ax
             d = d[sl + (da.from_array(mk, chunks=(d.chunks[ax],)),)]
@@ -325,13 +386,60 @@ def _vindex_multi(case):
         return False
 
 
+def _axis_items(case):
+    """(item, axis it indexes) for indices without boolean masks: None consumes no axis and an
+    Ellipsis expands to the missing axes."""
+    spec = case["index"]
+    if case.get("pre") or any(s[0] in ("ba", "dab", "bl", "b", "bam", "dabm") for s in spec):
+        return []
+    nd = len(case["shape"])
+    consuming = sum(s[0] not in ("n", "e") for s in spec)
+    out, ax, seen_e = [], 0, False
+    for s in spec:
+        if s[0] == "n":
+            continue
+        if s[0] == "e":
+            if not seen_e:
+                ax += max(0, nd - consuming)
+            seen_e = True
+            continue
+        if ax < nd:
+            out.append((s, ax))
+        ax += 1
+    return out
+
+
 def _dai_oob(case):
-    for s, dims in _item_dims(case):
-        if s[0] == "dai" and dims:
+    shape = case["shape"]
+    for s, ax in _axis_items(case):
+        if s[0] == "dai":
             v = np.atleast_1d(np.asarray(s[1]))
-            if v.size and ((v >= dims[0]) | (v < -dims[0])).any():
+            if v.size and ((v >= shape[ax]) | (v < -shape[ax])).any():
                 return True
     return False
+
+
+def _narrow_array(case):
+    """an integer ARRAY / list of NumPy scalars whose integer type cannot hold the length of the axis it indexes"""
+    if case["acc"] not in ("getitem", "vindex"):
+        return False
+    shape = case["shape"]
+    for s, ax in _axis_items(case):
+        dt = s[2] if s[0] in ("a", "l") and len(s) > 2 else None
+        if dt and dt not in ("int", "bool") and np.dtype(dt).kind in "iu" and np.size(s[1]) and np.iinfo(dt).max < shape[ax]:
+            return True
+    return False
+
+
+def _dai_zero_slots(case):
+    """number of array axes with a zero-length chunk (on a non-empty axis) + 1-d dask integer indexers whose
+    own chunks have a zero-length chunk (of a non-empty indexer); 0 without a dask integer indexer"""
+    dais = [s for s in case["index"] if s[0] == "dai"]
+    if not dais:
+        return 0
+    k = sum(1 for c, n in zip(case["chunks"], case["shape"]) if 0 in c and n)
+    k += sum(1 for s in dais if np.ndim(s[1]) == 1 and len(s[1]) and 0 in s[2][0])
+    return k
 
 
 def _dab_wrong_shape(case):
@@ -387,14 +495,19 @@ KNOWN_CLASSES = [
      lambda c: c["acc"] == "blocks" and _blocks_empty(c), ("shape", "values", "refuses-valid-index", "advertised-shape", "chunks-sum"),
      [{"fam": "blocks", "shape": [1, 4], "chunks": [[1], [4]], "acc": "blocks", "index": [["s", None, 2, -1]]},
       {"fam": "blocks", "shape": [5, 2], "chunks": [[5], [2]], "acc": "blocks", "index": [["s", -9, None, -1], ["i", 0]]}]),
-    ("daint:with-slice:AttributeError",
-     # (on a single-chunk array integers and unit-step slices work; other steps crash as well)
-     lambda c: c["acc"] == "getitem" and any(s[0] == "dai" for s in c["index"]) and
-     ((any(s[0] in ("i",) or (s[0] == "s" and not _colon(s)) for s in c["index"]) and
-       any(len(ch) > 1 for ch in c["chunks"])) or
-      any(s[0] == "s" and s[3] not in (None, 1) for s in c["index"])), ("crash:AttributeError",),
-     [{"fam": "daint", "shape": [3, 4], "chunks": [[2, 1], [3, 1]], "acc": "getitem", "index": [["dai", [2, 0], [[1, 1]]], ["s", None, 2, None]]},
-      {"fam": "daint", "shape": [3, 4], "chunks": [[2, 1], [3, 1]], "acc": "getitem", "index": [["dai", -2, None], ["s", None, 2, None]]}]),
+    ("daint:with-newaxis:AssertionError",
+     # slice_with_int_dask_array asserts len(index) == x.ndim after normalize_index kept the None entries
+     lambda c: c["acc"] == "getitem" and any(s[0] == "dai" for s in c["index"]) and any(s[0] == "n" for s in c["index"]),
+     ("crash:AssertionError", "index-crash:AssertionError"),
+     [{"fam": "daint", "shape": [3, 4], "chunks": [[2, 1], [3, 1]], "acc": "getitem", "index": [["dai", [2, 0], [[1, 1]]], ["n"]]},
+      {"fam": "daint", "shape": [3], "chunks": [[3]], "acc": "getitem", "index": [["n"], ["dai", 1, None]]}]),
+    ("daint:zero-length-chunks-on-two-axes:refuses",
+     # chunk unification of the two blockwise stages drops the zero-length chunks and rechunks the per-chunk pieces
+     # of the first stage (which do not have the advertised dimensionality): getitem raises at compute time
+     lambda c: c["acc"] == "getitem" and _dai_zero_slots(c) >= 2,
+     ("refuses-valid-index", "index-refuses-valid-program", "post-refuses-valid-program", "recompute-refuses-valid-program"),
+     [{"fam": "daint", "shape": [4], "chunks": [[2, 0, 2]], "acc": "getitem", "index": [["dai", [1], [[1, 0]]]]},
+      {"fam": "daint", "shape": [4, 2], "chunks": [[4], [1, 0, 1]], "acc": "getitem", "index": [["s", None, None, None], ["dai", [1], [[1, 0]]]]}]),
     ("daint:out-of-bounds-accepted",
      lambda c: c["acc"] == "getitem" and _dai_oob(c), ("accepts-index-numpy-rejects",),
      [{"fam": "daint", "shape": [6, 2], "chunks": [[3, 3], [2]], "acc": "getitem", "index": [["dai", [3, 9], [[2]]]]}]),
@@ -414,9 +527,57 @@ KNOWN_CLASSES = [
 ]
 
 
+def _dai_with_basic(c):
+    """the members of the repaired class: a dask integer index together with an integer / a
+    non-trivial slice on a multi-chunk array, or with a stepped slice."""
+    return c["acc"] == "getitem" and any(s[0] == "dai" for s in c["index"]) and (
+        (any(s[0] in ("i",) or (s[0] == "s" and not _colon(s)) for s in c["index"]) and any(len(ch) > 1 for ch in c["chunks"]))
+        or any(s[0] == "s" and s[3] not in (None, 1) for s in c["index"]))
+
+
+_D34 = {"fam": "daint", "shape": [3, 4], "chunks": [[2, 1], [3, 1]], "acc": "getitem"}
+
+# Classes that WERE violated on the unchanged tree and have been repaired in /repo (known_findings.json kind=fixed).
+# Their members are part of the random stream again (not in `avoid`); the inputs of the former probes are REGRESSION
+# probes: every failure on them is reported under the class signature (a fixed entry does not suppress it), and a
+# failure of a listed kind on a member found by the random stream gets the same signature.
+FIXED_CLASSES = [
+    ("daint:with-slice:AttributeError", _dai_with_basic,
+     ("crash:AttributeError", "crash:IndexError", "index-crash:AttributeError", "post-crash:AttributeError", "post-crash:IndexError",
+      "recompute-crash:AttributeError"),
+     [{**_D34, "index": [["dai", [2, 0], [[1, 1]]], ["s", None, 2, None]]},                 # x[i, :2]
+      {**_D34, "index": [["dai", -2, None], ["s", None, 2, None]]},                          # x[i0, :2]
+      {**_D34, "index": [["dai", [2, 0], [[1, 1]]], ["i", 1]]},                              # x[i, 1]
+      {**_D34, "index": [["dai", -2, None], ["i", 1]]},
+      {**_D34, "index": [["dai", [2, 0], [[1, 1]]], ["s", None, None, -2]]},                 # x[i, ::-2]
+      {**_D34, "index": [["s", 1, None, None], ["dai", [3, 0, 3], [[2, 1]]]]},               # x[1:, j]
+      {**_D34, "index": [["i", -1], ["dai", [3, 0, 3], [[2, 1]]]]},                          # x[-1, j]
+      {**_D34, "index": [["dai", [2, 0], [[1, 1]]]], "post": [["getitem", [["s", None, None, None], ["s", None, None, 2]]]]},   # x[i][:, ::2]
+      {**_D34, "index": [["dai", [2, 0], [[1, 1]]]], "post": [["getitem", [["l", [1, 0, 1]]]]]},                                # x[i][[1,0,1]]
+      {**_D34, "index": [["dai", [2, 0], [[1, 1]]]], "post": [["getitem", [["i", 1]]]]},                                        # x[i][1]
+      {**_D34, "index": [["dai", [2, 0], [[1, 1]]]], "post": [["getitem", [["s", 1, None, None], ["i", -1]]]]},                 # x[i][1:, -1]
+      {**_D34, "index": [["dai", -2, None]], "post": [["getitem", [["s", None, None, 2]]]]},                                    # x[i0][::2]
+      {**_D34, "index": [["dai", -2, None]], "post": [["getitem", [["l", [1, 0, 1]]]]]},                                        # x[i0][[1,0,1]]
+      {"fam": "daint", "shape": [5], "chunks": [[2, 3]], "acc": "getitem", "index": [["dai", [4, 0, 2], [[2, 1]]]],
+       "post": [["getitem", [["s", None, None, -1]]], ["sum", 0]]},
+      {"fam": "daint-multi", "shape": [3, 4, 2], "chunks": [[2, 1], [3, 1], [1, 1]], "acc": "getitem",
+       "index": [["dai", 1, None], ["dai", [3, 0], [[1, 1]]], ["s", None, None, -1]]}]),
+    ("narrow-int-array-index:OverflowError", _narrow_array,
+     # (was: posify_index `ind + shape` / _vindex `ind >= size` did the bounds arithmetic in the dtype of the index array and NumPy
+     # refused the Python integer `shape` when the dtype cannot hold it; repaired in /repo ec3e431)
+     ("crash:OverflowError", "index-crash:OverflowError", "values", "shape", "refuses-valid-index"),
+     [{"fam": "list", "shape": [256], "chunks": [[256]], "acc": "getitem", "index": [["a", [0], "uint8"]]},
+      {"fam": "list", "shape": [128, 2], "chunks": [[64, 64], [2]], "acc": "getitem", "index": [["l", [-1, 5], "int8"]]},
+      {"fam": "list", "shape": [70000], "chunks": [[65536, 4464]], "acc": "getitem", "index": [["a", [-32768, 32767, -1, 0], "int16"]]},
+      {"fam": "list", "shape": [65537], "chunks": [[300] * 218 + [137]], "acc": "getitem", "index": [["a", [65535, 0, 256, 255], "uint16"]]},
+      {"fam": "vindex", "shape": [300], "chunks": [[100, 100, 100]], "acc": "vindex", "index": [["a", [1, 0], "uint8"]]},
+      {"fam": "vindex", "shape": [3, 300], "chunks": [[3], [150, 150]], "acc": "vindex", "index": [["s", None, None, None], ["a", [-128, 127, -1], "int8"]]}]),
+]
+
+
 def classify(case, kind):
     """stable signature for a failure of `kind` on `case` (known classes get their own name)."""
-    for sig, pred, kinds, _ in KNOWN_CLASSES:
+    for sig, pred, kinds, _ in KNOWN_CLASSES + FIXED_CLASSES:
         try:
             if kind in kinds and pred(case):
                 return sig
@@ -446,6 +607,12 @@ def apply_post(y, post, for_dask):
             y = y + op[1]
         elif op[0] == "T":
             y = y.T
+        elif op[0] == "max":
+            y = y.max(axis=op[1])
+        elif op[0] == "addrev":
+            y = y + y[(slice(None),) * op[1] + (slice(None, None, -1),)]
+        elif op[0] == "mulself":
+            y = y * y
         else:
             raise ValueError(op)
     return y
@@ -572,7 +739,17 @@ def _simpler_items(sp, dim):
     k = sp[0]
     if k == "s":
         yield ["s", None, None, None]
-        a, b, c = sp[1:]
+        a, b, c = sp[1:4]
+        if len(sp) > 4 and sp[4]:   # typed bounds: plain python ints first, then simpler bounds of the same types
+            yield ["s", a, b, c]
+            tg = list(sp[4])
+            if a is not None:
+                yield ["s", None, b, c, [None] + tg[1:]]
+            if b is not None:
+                yield ["s", a, None, c, [tg[0], None, tg[2]]]
+            if c is not None:
+                yield ["s", a, b, None, tg[:2] + [None]]
+            return
         if c not in (None, 1, -1):
             yield ["s", a, b, -1 if c < 0 else None]
         if a is not None:
@@ -580,12 +757,24 @@ def _simpler_items(sp, dim):
         if b is not None:
             yield ["s", a, None, c]
     elif k == "i":
-        if sp[1] != 0:
+        if len(sp) > 2 and sp[2] not in (None, "int"):
+            yield ["i", sp[1]]
+        elif sp[1] != 0:
             yield ["i", 0]
             yield ["i", sp[1] - 1 if sp[1] > 0 else sp[1] + 1]
+    elif k == "dai":
+        if len(sp) > 3:
+            yield sp[:3]
+        if np.ndim(sp[1]) == 1:
+            v = list(sp[1])
+            if len(sp[2][0]) > 1:
+                yield ["dai", v, [[len(v)]]] + sp[3:]
+            if len(v) > 1:
+                for j in range(len(v)):
+                    yield ["dai", v[:j] + v[j + 1:], [[len(v) - 1]]] + sp[3:]
     elif k in ("l", "a"):
         v = list(np.asarray(sp[1]).ravel().tolist())
-        if k == "a":
+        if k == "a" or len(sp) > 2:
             yield ["l", v]
         for j in range(len(v)):
             yield [k, v[:j] + v[j + 1:]] + sp[2:]
@@ -612,7 +801,7 @@ def shrink(case, sig, avoid, budget=250):
         cands = []
         # merge chunks
         for ax, c in enumerate(cur["chunks"]):
-            if len(c) > 1 and "pre" not in cur and not any(s[0] in ("dab",) for s in cur["index"]):
+            if len(c) > 1 and "pre" not in cur and not any(s[0] in ("dab", "dabm") for s in cur["index"]):
                 cc = [list(q) for q in cur["chunks"]]
                 cc[ax] = [sum(c)]
                 cands.append({**cur, "chunks": cc})
@@ -642,7 +831,7 @@ def shrink(case, sig, avoid, budget=250):
         if cur["index"] and cur["index"][-1] == ["s", None, None, None]:
             cands.append({**cur, "index": cur["index"][:-1]})
         # drop an axis that is indexed by an integer / a full slice / nothing, shrink an axis
-        if "pre" not in cur and not any(s[0] in ("e", "ba", "dab", "bl") for s in cur["index"]) and len(cur["shape"]) > 1:
+        if "pre" not in cur and not any(s[0] in ("e", "ba", "dab", "bl", "bam", "dabm") for s in cur["index"]) and len(cur["shape"]) > 1:
             axes_of = []
             for j, sp in enumerate(cur["index"]):
                 if sp[0] != "n":
@@ -655,8 +844,18 @@ def shrink(case, sig, avoid, budget=250):
                     ix = [sp for k, sp in enumerate(cur["index"]) if k != j]
                     cands.append({**cur, "shape": [n for k, n in enumerate(cur["shape"]) if k != ax],
                                   "chunks": [c for k, c in enumerate(cur["chunks"]) if k != ax], "index": ix})
-        if "pre" not in cur and not any(s[0] in ("ba", "dab", "bl") for s in cur["index"]):
+        if "pre" not in cur and not any(s[0] in ("ba", "dab", "bl", "bam", "dabm") for s in cur["index"]):
             for ax, n in enumerate(cur["shape"]):
+                last = cur["chunks"][ax][-1]
+                for cut in ([last] if len(cur["chunks"][ax]) > 1 and n > 16 else []) + ([last // 2] if last > 16 else []):
+                    # large axes: drop the last chunk / halve it (the index must stay valid: `fails` decides)
+                    cc = [list(q) for q in cur["chunks"]]
+                    cc[ax][-1] -= cut
+                    if cc[ax][-1] == 0:
+                        cc[ax].pop()
+                    sh = list(cur["shape"])
+                    sh[ax] = n - cut
+                    cands.append({**cur, "shape": sh, "chunks": cc})
                 if n > 1 and cur["chunks"][ax][-1] >= 1:
                     cc = [list(q) for q in cur["chunks"]]
                     cc[ax][-1] -= 1
@@ -813,37 +1012,113 @@ def gen_dabool(rng):
     return {"fam": "dabool-axis", "shape": shape, "chunks": chunks, "acc": "getitem", "index": items}
 
 
+def _multi_chunks(rng, shape, p_multi=0.75, maxparts=4):
+    """random chunks; with probability p_multi at least one axis (of length >= 2) has several chunks"""
+    chunks = [list(gen.rand_chunks(rng, n, maxparts=maxparts)) for n in shape]
+    if rng.random() < p_multi and not any(len(c) > 1 for c in chunks):
+        big = [k for k, n in enumerate(shape) if n >= 2]
+        if big:
+            k = rng.choice(big)
+            c = rng.randint(1, shape[k] - 1)
+            chunks[k] = [c, shape[k] - c]
+    return chunks
+
+
+def _dai_item(rng, n, p0=0.25, oob=0.05, maxparts=3, maxlen=7, p_opts=0.3):
+    """a dask integer indexer for an axis of length n: 0-d, or 1-d with random index chunks; sometimes
+    of another integer dtype / produced by an op instead of from_array"""
+    opts = {}
+    if rng.random() < p_opts:
+        if rng.random() < 0.6:
+            opts["dtype"] = rng.choice(["int32", "int16", "uint8", "uint64", "intp"])
+        if rng.random() < 0.6:
+            opts["form"] = rng.choice(["add0", "rechunk", "sliced"])
+    unsigned = opts.get("dtype", "i").startswith("u")
+    if n and rng.random() < p0:
+        q = rng.randint(-n, n - 1)
+        return ["dai", q % n if unsigned else q, None] + ([opts] if opts else [])
+    v = rand_int_list(rng, n, oob=oob, maxlen=maxlen)
+    if not v:
+        v = [0] if n else []
+    if unsigned:
+        v = [q % n if -n <= q < n else abs(q) for q in v]
+    return ["dai", v, [list(gen.rand_chunks(rng, len(v), maxparts=maxparts))]] + ([opts] if opts else [])
+
+
+def _zero_chunk_one_slot(rng, case, ax):
+    """put zero-length chunks on exactly ONE slot: an array axis or the chunks of the 1-d indexer"""
+    it = case["index_item"]
+    slots = list(range(len(case["chunks"]))) + (["index"] if np.ndim(it[1]) == 1 else [])
+    sl = rng.choice(slots + [ax])
+    tgt = it[2][0] if sl == "index" else case["chunks"][sl]
+    for _ in range(rng.randint(1, 2)):
+        tgt.insert(rng.randint(0, len(tgt)), 0)
+
+
+def _any_slice(rng, n):
+    s = gen.rand_slice(rng, n)  # every step incl. negative / larger than n, bounds beyond the axis
+    return ["s", s.start, s.stop, s.step]
+
+
 def gen_daint(rng):
-    shape, chunks = rand_shape_chunks(rng, zero_chunks=0.0)
-    ax = rng.randrange(len(shape))
-    n = shape[ax]
-    items = [["s", None, None, None] if rng.random() < 0.6 else rand_basic_item(rng, m, p_int=0.2) for m in shape]
-    if rng.random() < 0.2 and n:
-        items[ax] = ["dai", rng.randint(-n, n - 1), None]
-    else:
-        v = rand_int_list(rng, n, oob=0.05)
-        if not v:
-            v = [0] if n else []
-        items[ax] = ["dai", v, [list(gen.rand_chunks(rng, len(v), maxparts=3))]]
-    return {"fam": "daint", "shape": shape, "chunks": chunks, "acc": "getitem", "index": items}
+    """ONE dask integer indexer (0-d or 1-d) on one axis of a (mostly multi-chunk) array, the other axes
+    indexed by plain integers, slices with every step, an integer list (1-d dask indexer + list is a
+    documented refusal: may raise, may not return other data), short indices, an Ellipsis standing for
+    a run of axes, None entries."""
+    shape, _ = rand_shape_chunks(rng, zero_chunks=0.0)
+    chunks = _multi_chunks(rng, shape)
+    nd = len(shape)
+    ax = rng.randrange(nd)
+    items = [["s", None, None, None] if rng.random() < 0.35 else (["i", rand_int(rng, m, oob=0.04)] if rng.random() < 0.3 else _any_slice(rng, m))
+             for m in shape]
+    items[ax] = _dai_item(rng, shape[ax])
+    case = {"fam": "daint", "shape": shape, "chunks": chunks, "acc": "getitem"}
+    if rng.random() < 0.12:   # zero-length chunks (array axis or indexer) on one slot; rarely on more (known class)
+        for _ in range(1 if rng.random() < 0.9 else 2):
+            _zero_chunk_one_slot(rng, {"chunks": chunks, "index_item": items[ax]}, ax)
+    if nd > 1 and rng.random() < 0.15:
+        bx = rng.choice([k for k in range(nd) if k != ax])
+        items[bx] = ["l", rand_int_list(rng, shape[bx], oob=0.0, maxlen=4) or ([0] if shape[bx] else [])]
+        if np.ndim(items[ax][1]) == 1:
+            case["must"] = False
+    r = rng.random()
+    if r < 0.2:      # short index
+        items = items[: rng.randint(ax + 1, nd)]
+    elif r < 0.45:   # an Ellipsis for a (possibly empty) run of axes on one side of the dask indexer
+        if rng.random() < 0.5:
+            lo = rng.randint(0, ax)
+            hi = rng.randint(lo, ax)
+        else:
+            lo = rng.randint(ax + 1, nd)
+            hi = rng.choice([nd, rng.randint(lo, nd)])
+        items[lo:hi] = [["e"]]
+    p_none = 0.12
+    while rng.random() < p_none and len(items) < 6:
+        items.insert(rng.randint(0, len(items)), ["n"])
+        p_none *= 0.5
+    case["index"] = items
+    return case
 
 
 def gen_daint_multi(rng):
-    """several integer dask indexers in ONE tuple on 3-D/4-D arrays: 0-d dask ints (each drops
-    its axis), at most one 1-d dask int array, plain ints and slices, in every order.  The
-    advanced items are kept adjacent (NumPy moves separated ones to the front: known class) and
-    plain ints / non-trivial slices are only mixed in on single-chunk arrays (known class
-    `daint:with-slice:AttributeError` otherwise)."""
+    """several integer dask indexers in ONE tuple on 3-D/4-D arrays (single- and multi-chunk): 0-d
+    dask ints (each drops its axis), at most one 1-d dask int array, plain ints, in every order; the
+    remaining axes take slices with every step.  The advanced items are kept adjacent (NumPy moves
+    separated ones to the front: known class)."""
     nd = rng.choice([3, 3, 4])
     shape = [rng.randint(2, 6) for _ in range(nd)]
-    single = rng.random() < 0.35
-    chunks = [[n] for n in shape] if single else [list(gen.rand_chunks(rng, n, maxparts=3)) for n in shape]
+    single = rng.random() < 0.25
+    # (at most 2 chunks per axis and one axis of 3: the graphs of stacked dask-int stages grow with the product)
+    chunks = [[n] for n in shape] if single else _multi_chunks(rng, shape, p_multi=1.0, maxparts=2)
+    if not single and rng.random() < 0.4:
+        q = rng.randrange(nd)
+        chunks[q] = list(gen.rand_chunks(rng, shape[q], maxparts=3))
     k = rng.randint(2, min(3, nd))          # length of the advanced run
     a = rng.randint(0, nd - k)              # where it starts
     kinds = ["i0"] * k
     if rng.random() < 0.8:
         kinds[rng.randrange(k)] = "j1"
-    if single and rng.random() < 0.5:
+    if rng.random() < 0.5:
         q = rng.randrange(k)
         if kinds[q] == "i0":
             kinds[q] = "int"
@@ -860,14 +1135,112 @@ def gen_daint_multi(rng):
             else:
                 v = [rng.randint(-n, n - 1) for _ in range(rng.randint(1, 4))]
                 items.append(["dai", v, [list(gen.rand_chunks(rng, len(v), maxparts=2))]])
-        elif single and rng.random() < 0.4:
-            sl = gen.rand_slice(rng, n, steps=(None, 1, 1, 1, 2, -1))
-            items.append(["s", sl.start, sl.stop, sl.step])
+        elif rng.random() < 0.5:
+            items.append(_any_slice(rng, n))
         else:
             items.append(["s", None, None, None])
     while items and _colon(items[-1]) and rng.random() < 0.5:
         items.pop()
+    if items and _colon(items[0]) and a > 0 and rng.random() < 0.15:
+        j = 0
+        while j < a and _colon(items[j]):
+            j += 1
+        items[:j] = [["e"]]
     return {"fam": "daint-multi", "shape": shape, "chunks": chunks, "acc": "getitem", "index": items}
+
+
+def _rand_post_getitem(rng, oshape):
+    """an index for an array of shape oshape made of full slices, slices with every step, integers,
+    at most one integer list (then no integers: an integer and a list separated by a slice is the
+    known transposition class), None entries and an Ellipsis for a run of full slices."""
+    use_list = rng.random() < 0.25 and any(oshape)
+    lax = rng.choice([k for k, m in enumerate(oshape) if m]) if use_list else -1
+    sub = []
+    for k2, m in enumerate(oshape):
+        r = rng.random()
+        if k2 == lax:
+            sub.append(["l", [rng.randint(-m, m - 1) for _ in range(rng.randint(1, 4))]])
+        elif r < 0.3:
+            sub.append(["s", None, None, None])
+        elif r < 0.5 and m and not use_list:
+            sub.append(["i", rng.randint(-m, m - 1)])
+        else:
+            sub.append(_any_slice(rng, m))
+    if rng.random() < 0.3:
+        sub = sub[: rng.randint(lax + 1 if use_list else 0, len(sub))]
+    if rng.random() < 0.15:
+        runs = [j for j, sp in enumerate(sub) if _colon(sp)]
+        if runs:
+            sub[runs[0]] = ["e"]
+    elif rng.random() < 0.08 and not any(sp[0] == "e" for sp in sub):
+        sub.append(["e"])
+    if rng.random() < 0.15 and not use_list:
+        sub.insert(rng.randint(0, len(sub)), ["n"])
+    return sub
+
+
+def rand_post(rng, w, nops):
+    """follow-on ops for the NumPy value w of an indexed array (consumers: slices / integer / list
+    indices, reductions, elementwise ops, transposition); returns (ops, final NumPy value)."""
+    post = []
+    for _ in range(nops):
+        r = rng.random()
+        if r < 0.55 and w.ndim:
+            op = ["getitem", _rand_post_getitem(rng, list(w.shape))]
+        elif r < 0.75 and w.ndim:
+            # (sum only: min/max over a result with a zero-length chunk — which stepped slices produce — is the
+            # listed min/max zero-length-chunk family of C18/C28, not an indexing matter)
+            op = ["sum", rng.choice([None] + list(range(w.ndim)))]
+        elif r < 0.83:
+            op = ["add", rng.randint(1, 3)]
+        elif r < 0.9 and w.ndim:
+            op = ["addrev", rng.randrange(w.ndim)]
+        elif r < 0.95:
+            op = ["mulself"]
+        elif w.ndim >= 2:
+            op = ["T"]
+        else:
+            op = ["add", 1]
+        try:
+            w = np.asarray(apply_post(w, [op], False))
+        except Exception:
+            continue
+        post.append(op)
+    return post, w
+
+
+def gen_daint_post(rng):
+    """x[<dask integer indexer> (+ integers / slices on the other axes)] on a multi-chunk array, then
+    consumers of the result: slices with every step, integers, integer lists, None, reductions,
+    elementwise ops, transposition; then the indexed collection itself is computed again."""
+    nd = rng.choice([1, 2, 2, 3])
+    shape = [rng.randint(2, 7) for _ in range(nd)]
+    chunks = _multi_chunks(rng, shape, p_multi=0.9)
+    ax = rng.randrange(nd)
+    if rng.random() < 0.8 and len(chunks[ax]) == 1:
+        c = rng.randint(1, shape[ax] - 1)
+        chunks[ax] = [c, shape[ax] - c]
+    items = [["s", None, None, None] for _ in shape]
+    items[ax] = _dai_item(rng, shape[ax], p0=0.2, oob=0.0, maxlen=9)
+    if rng.random() < 0.35:
+        for k2, m in enumerate(shape):
+            if k2 != ax and rng.random() < 0.6:
+                items[k2] = ["i", rng.randint(-m, m - 1)] if rng.random() < 0.3 else _any_slice(rng, m)
+    while len(items) > ax + 1 and _colon(items[-1]):
+        items.pop()
+    case = {"fam": "daint-post", "shape": shape, "chunks": chunks, "acc": "getitem", "index": items}
+    if avoid(case):  # (an integer and the 1-d indexer separated by a slice: transposition class)
+        for k2 in range(len(items)):
+            if items[k2][0] == "i":
+                items[k2] = ["s", None, None, None]
+    x = np.arange(int(np.prod(shape)), dtype=np.int64).reshape(shape)
+    w = np.asarray(x[build_index(items, False)])
+    post, _ = rand_post(rng, w, rng.choice([1, 1, 2, 2, 3]))
+    if not post:
+        post = [["add", 1]]
+    case["post"] = post
+    case["hist"] = {"chunks_first": rng.random() < 0.4, "recompute": rng.random() < 0.6}
+    return case
 
 
 def gen_take_post(rng):
@@ -1045,8 +1418,10 @@ def gen_exotic(rng):
 GENS = [
     (gen_basic, 5), (gen_list, 3), (gen_two_lists, 0.4), (gen_npbool, 1.2), (gen_dabool, 1.2), (gen_daint, 1.0),
     (gen_vindex, 1.5), (gen_blocks, 1.5), (gen_unknown, 1.5), (gen_exotic, 0.3),
-    (gen_daint_multi, 1.2), (gen_take_post, 1.6),
+    (gen_daint_multi, 1.2), (gen_take_post, 1.6), (gen_daint_post, 1.6),
 ]
+# SIZE classes (large axes) and INDEX ELEMENT TYPES (props_ext/c12_sizes.py): random part
+GENS += [(g, w * 0.7) for g, w in c12_sizes.GENS]
 
 
 def case_key(case, res):
@@ -1097,6 +1472,24 @@ def search(ctx, n_cases):
             report(ctx, case, probs)
     ctx.notes["search_cases"] = done
     ctx.notes["search_skipped_known_class"] = skipped
+    # the stratified sweep over size classes x element types (every run; thorough: several passes)
+    import time
+
+    swept, t_sweep = 0, time.time()
+    for _ in range(ctx.scale(1, 8)):
+        for case in c12_sizes.stratified(rng):
+            if avoid(case):
+                skipped += 1
+                continue
+            probs = run_case(case)
+            swept += 1
+            ctx.count(("sweep",) + case_key(case, probs) + (tuple(len(c) > 1 for c in case["chunks"]),))
+            if swept % 100 == 1:
+                ctx.sample({"case": case})
+            if probs:
+                report(ctx, case, probs)
+    ctx.notes["size_type_sweep_cases"] = swept
+    ctx.notes["wall_sweep_s"] = round(time.time() - t_sweep, 1)
     # dedicated probes for the known classes
     for sig, _, _, probes in KNOWN_CLASSES:
         for case in probes:
@@ -1104,6 +1497,14 @@ def search(ctx, n_cases):
             ctx.count(("probe", sig))
             for s, kind, detail in probs:
                 ctx.fail(s, {"case": case, "kind": kind, "detail": detail}, f"probe {sig}")
+    # regression probes of the repaired classes: every failure keeps the class signature
+    for sig, _, _, probes in FIXED_CLASSES:
+        for case in probes:
+            probs = run_case(case)
+            ctx.count(("regression-probe", sig, bool(case.get("post"))))
+            for s, kind, detail in probs:
+                ctx.fail(sig, {"case": case, "kind": kind, "detail": detail, "generic_signature": s},
+                         f"regression probe of the repaired class {sig}: {kind}")
     # the known finding listed by the coordinator (take through broadcast_to)
     probe_broadcast(ctx)
 
@@ -1181,6 +1582,27 @@ def correspondence(ctx):
     def norm(idx, shape):
         return impl_call(lambda: U.normalize_index(idx, shape), fmt_norm)
 
+    def strict(v):
+        """an integer position of a NORMALIZED index must be a Python int: a NumPy scalar left in place is rendered
+        `<value>@<type>` (the model, over unbounded Int, prints the plain value: a disagreement)"""
+        if v is None or type(v) is int:
+            return "N" if v is None else str(v)
+        return f"{int(v)}@{type(v).__name__}"
+
+    def f_item_strict(it):
+        if isinstance(it, slice):
+            return ":".join(strict(v) for v in (it.start, it.stop, it.step))
+        if isinstance(it, (int, np.integer, np.bool_)) and it is not None:
+            return strict(it)
+        return f_item(it)
+
+    def norm_typed(idx, shape):
+        try:   # (any exception class is an answer to compare with the model's, never a harness error)
+            r = U.normalize_index(idx, shape)
+            return "ok " + ("()" if not r else "|".join(f_item_strict(i) for i in r))
+        except Exception as e:
+            return err_name(e)
+
     def npflat(idx, shape):
         x = np.arange(int(np.prod(shape, dtype=np.int64)), dtype=np.int64).reshape(shape)
         try:
@@ -1190,7 +1612,8 @@ def correspondence(ctx):
         return "ok " + f_list(r.shape) + " " + f_list(np.asarray(r).ravel().tolist())
 
     # ---- replace_ellipsis / normalize_index / spec-vs-NumPy, exhaustive 1-D
-    p_norm, p_np, p_re = [], [], []
+    p_norm, p_np, p_re, p_normt = [], [], [], []
+    typed_table = ctx.extra.setdefault("_typed_norm", {})
     for n in range(0, NEX + 1):
         for it in one_d_index_space(n, steps):
             for idx in ((it,), (None, it), (Ellipsis, it), (it, None), (it, it), (it, Ellipsis, None)):
@@ -1207,6 +1630,12 @@ def correspondence(ctx):
         idx = build_index(spec, False)
         p_re.append((f"ix.replace_ellipsis {len(shape)} {f_index(idx)}", impl_call(lambda: U.replace_ellipsis(len(shape), idx), fmt_norm)))
         p_norm.append((f"ix.normalize {f_list(shape)} {f_index(idx)}", norm(idx, shape)))
+        if rng.random() < 0.35:   # the same tuple with its integer positions of NumPy integer types / bool slice bounds
+            tspec = [c12_sizes.retag_item(rng, sp, 0.8) for sp in spec]
+            if tspec != spec:
+                req = f"ix.normalize {f_list(shape)} {f_index(idx)}"
+                p_normt.append((req, norm_typed(build_index(tspec, False), shape)))
+                typed_table.setdefault(req, tspec)
         # the spec's error CLASS is NumPy's; dask's may differ only as documented (two Ellipses -> TypeError)
         p_np.append((f"ix.npflat {f_list(shape)} {f_index(idx)}", npflat(idx, shape)))
         # lists: one list, no integers (the spec's claimed NumPy domain for `lst`)
@@ -1219,6 +1648,16 @@ def correspondence(ctx):
             idx2 = build_index(sp2, False)
             p_norm.append((f"ix.normalize {f_list(shape)} {f_index(idx2)}", norm(idx2, shape)))
             p_np.append((f"ix.npflat {f_list(shape)} {f_index(idx2)}", npflat(idx2, shape)))
+    # typed elements on LARGE axes, values near the type limits (props_ext/c12_sizes)
+    for _ in range(ctx.scale(600, 8000)):
+        case = c12_sizes.case_basic(rng)
+        shape = tuple(case["shape"])
+        idx = build_index([sp[:4] if sp[0] == "s" else sp[:2] if sp[0] == "i" else sp for sp in case["index"]], False)
+        req = f"ix.normalize {f_list(shape)} {f_index(idx)}"
+        p_normt.append((req, norm_typed(build_index(case["index"], False), shape)))
+        typed_table.setdefault(req, case["index"])
+    ctx.correspond("normalize_index:typed-elements", p_normt,
+                   branch_key=lambda req, m: (m[:12], req.count("|"), "..." in req, "None" in req, len(req) // 10))
     ctx.correspond("replace_ellipsis", p_re)
     ctx.correspond("normalize_index", p_norm, branch_key=lambda req, m: (m[:12], req.count("|"), "..." in req, "None" in req, "L" in req))
     ctx.correspond("npIndex-vs-NumPy", p_np, branch_key=lambda req, m: (m[:6], req.count("|"), "..." in req, "None" in req, "L" in req))
@@ -1358,7 +1797,24 @@ def targeted(ctx):
             if toks[0] in ("ix.normalize", "ix.npflat", "ix.np", "ix.replace_ellipsis"):
                 shape = [] if toks[1] == "_" else [int(q) for q in toks[1].split(",")] if toks[0] != "ix.replace_ellipsis" else [2] * int(toks[1])
                 spec = p_index(toks[2])
-                for chunks in ([[n] for n in shape], [[1] * n if n else [0] for n in shape], [list(gen.rand_chunks(ctx.rng, n, maxparts=3)) for n in shape]):
+                if dis["family"] == "normalize_index:typed-elements" and dis["request"] in ctx.extra.get("_typed_norm", {}):
+                    spec = ctx.extra["_typed_norm"][dis["request"]]
+                    big = [n > 64 for n in shape]
+                    cks = [c12_sizes.large_chunks(ctx.rng, n, "edge") if b else [n] for n, b in zip(shape, big)]
+                    cases.append({"fam": "targeted-typed", "shape": shape, "chunks": cks, "acc": "getitem", "index": spec})
+                    # the element may only matter once a later index is fused into it: x[spec][0 on every axis] and x[1:][spec]
+                    try:
+                        w = np.empty(shape, dtype=np.int8)[build_index(spec, False)]
+                        if w.ndim and 0 not in w.shape:
+                            cases.append({"fam": "targeted-typed", "shape": shape, "chunks": cks, "acc": "getitem", "index": spec,
+                                          "post": [["getitem", [["s", None, None, None]] * 0 + [["i", m - 1] for m in w.shape]]], "hist": {}})
+                        cases.append({"fam": "targeted-typed", "shape": [n + 1 for n in shape], "chunks": [c[:-1] + [c[-1] + 1] for c in cks], "acc": "getitem",
+                                      "index": [["s", 1, None, None] for _ in shape], "post": [["getitem", spec]], "hist": {}})
+                        cases.append({"fam": "targeted-typed", "shape": [2 * n for n in shape], "chunks": [c + c for c in cks], "acc": "getitem",
+                                      "index": [["s", None, None, 2] for _ in shape], "post": [["getitem", spec]], "hist": {}})
+                    except Exception:
+                        pass
+                for chunks in () if cases else ([[n] for n in shape], [[1] * n if n else [0] for n in shape], [list(gen.rand_chunks(ctx.rng, n, maxparts=3)) for n in shape]):
                     cases.append({"fam": "targeted", "shape": shape, "chunks": chunks, "acc": "getitem", "index": spec,
                                   "must": not any(s[0] == "l" for s in spec) or sum(s[0] == "l" for s in spec) == 1})
             elif toks[0] in ("ix.ssi_chunks", "ix.ssi_layer", "ix.getitem_chunks", "ix.out_chunks"):
@@ -1400,16 +1856,25 @@ def run(ctx, replay=None):
     warnings.simplefilter("ignore")
     ctx.rule = (
         "correspondence: exhaustive 1-D domain (see exhaustive_domain) + seeded random n-D tuples (rank ≤ 4); distinct by "
-        "(family, model-output prefix, #items, Ellipsis/None/list present). search: seeded random cases from 12 generator "
-        "families (basic, list, two-lists, numpy bool, dask bool, dask int, several dask ints (0-d/1-d) mixed with ints and slices "
-        "on 3-D/4-D arrays, vindex, blocks, unknown-chunks ± compute_chunk_sizes, exotic types, list take followed by slices/"
-        "reductions/elemwise ops and re-computation of the original collection under small array.chunk-size) on from_array(arange(prod(shape)).reshape(shape), random chunks incl. zero-length), each evaluated "
+        "(family, model-output prefix, #items, Ellipsis/None/list present). search: seeded random cases from 13 generator "
+        "families (basic, list, two-lists, numpy bool, dask bool, one dask int indexer (0-d/1-d, several integer dtypes, from_array or the "
+        "result of an op) with ints / slices of every step / an int list / Ellipsis / None / short indices on mostly multi-chunk arrays "
+        "(zero-length chunks on one axis), several dask ints (0-d/1-d) mixed with ints and slices of every step "
+        "on single- and multi-chunk 3-D/4-D arrays, consumers of x[dask int] (slices, ints, lists, None, reductions, elementwise ops, "
+        "transposition, re-computation), vindex, blocks, unknown-chunks ± compute_chunk_sizes, exotic types, list take followed by slices/"
+        "reductions/elemwise ops and re-computation of the original collection under small array.chunk-size; "
+        "SIZE classes and ELEMENT TYPES (props_ext/c12_sizes): a stratified sweep in every run over (basic, chained basic, list/array, NumPy/dask "
+        "mask, vindex with every subset of point-wise axes, blocks, dask int, unknown-chunks) x rank x which axis is LARGE (257…70000; "
+        ">256 blocks for .blocks) x chunk class (one chunk, <256, =256, >256, >65536, edges at 255/256/257/65535/65536/65537) with integers, "
+        "slice bounds/steps, list entries and array dtypes of python int / np.int8…np.uint64 / np.intp / bool, values near the type limits, "
+        "chunk edges and in-block offsets >= 256, plus the same generators and re-typed small cases in the random stream) on from_array(arange(prod(shape)).reshape(shape), random chunks incl. zero-length), each evaluated "
         "optimized and with array.optimize-graph=False against NumPy / brute force; distinct by (family, item kinds, negative "
         "step, rank, short index, multi-chunk, chunk sizes computed)"
     )
     ctx.assumptions = [
         "integer data (arange), so equality is exact; dtype int64 only",
-        "shapes ≤ 6 per axis, rank ≤ 3 (search) / ≤ 4 (normalize_index correspondence); zero-length axes and chunks included",
+        "small stream: shapes ≤ 6 per axis, rank ≤ 3 (search) / ≤ 4 (normalize_index correspondence), zero-length axes and chunks included; "
+        "size stream: one or two axes of 257…70000 elements (≤ 140000 elements per array), the others ≤ 6",
         "full-rank dask boolean mask on arrays with unknown shape: compared as multisets (the code documents block-major order)",
         "an index NumPy accepts but dask documents as unsupported (two list axes, two boolean masks) may raise "
         "IndexError/ValueError/TypeError/NotImplementedError; it may not return different data",
@@ -1422,12 +1887,22 @@ def run(ctx, replay=None):
             probs = run_case(case)
             ctx.count(("replay",))
             ctx.sample({"replay": case, "problems": [p[0] for p in probs]})
+            for sig, _, _, probes in FIXED_CLASSES:   # a regression probe keeps its class signature
+                if case in probes:
+                    probs = [(sig, k, d) for _, k, d in probs]
             report(ctx, case, probs, do_shrink=False)
             return
         probe_broadcast(ctx)
         return
+    import time
+
+    t0 = time.time()
     correspondence(ctx)
-    search(ctx, ctx.scale(5000, 120000))
+    t1 = time.time()
+    search(ctx, ctx.scale(5200, 125000))
+    ctx.notes["wall_correspondence_s"] = round(t1 - t0, 1)
+    ctx.notes["wall_search_s"] = round(time.time() - t1, 1)
     if ctx.disagreements:
         targeted(ctx)
     ctx.extra.pop("_shrunk", None)
+    ctx.extra.pop("_typed_norm", None)
